@@ -824,3 +824,39 @@ c02_source_root!(c02_source_root_n1, 1, 9);
 c02_source_root!(c02_source_root_n5, 5, 9);
 c02_source_root!(c02_source_root_n6, 6, 10);
 c02_source_root!(c02_source_root_n8, 8, 12);
+
+// ---------------------------------------------------------------------------
+// C08 (thorough): lookups through nested containers: an index section that holds another
+// index map (offsets compose), and a Hermes section (resolved through its inner map).
+#[kani::proof]
+#[kani::unwind(5)]
+fn c08_lookup_nested() {
+    let o_outer: (u32, u32) = kani::any();
+    let o_inner: (u32, u32) = kani::any();
+    let t = any_tokens::<1>();
+    kani::assume(!t[0].is_range);
+    let mut inner_secs = Vec::with_capacity(2);
+    inner_secs.push(mk_section(o_inner, Some(mk_map(vec_of(&t)))));
+    let inner = mk_index(inner_secs);
+    let mut outer_secs = Vec::with_capacity(2);
+    outer_secs.push(SourceMapSection::new(o_outer, None, Some(DecodedMap::Index(inner))));
+    let outer = mk_index(outer_secs);
+    let line: u32 = kani::any();
+    let col: u32 = kani::any();
+    let got = outer.lookup_token(line, col).map(|t| t.get_raw_token());
+    // statement applied twice: position relative to the outer section, then to the inner one
+    let mut want: Option<RawToken> = None;
+    if (line, col) >= o_outer {
+        let l1 = line - o_outer.0;
+        let c1 = if line == o_outer.0 { col - o_outer.1 } else { col };
+        if (l1, c1) >= o_inner {
+            want = ref_section_lookup(o_inner, &t[..], l1, c1);
+        }
+    }
+    assert!(got == want, "C08/lookup-nested-index-composes-offsets");
+    kani::cover!(got.is_some() && o_outer.1 > 0 && o_inner.1 > 0 && line == o_outer.0, "both column offsets apply");
+    kani::cover!(got.is_some() && line > o_outer.0 + o_inner.0, "later line through both levels");
+    kani::cover!((line, col) >= o_outer && got.is_none(), "inside the outer section, before the inner one or its token");
+    forget(outer);
+}
+
